@@ -83,6 +83,27 @@ def run(ctx):
         ctx.violation("index-set property violated by the implementation under a concrete schedule: " + msg[:300],
                       {"execution": hist[:400], "harness_cmd": cmd, "how_to_rerun": "c09 one <kind> <cap> <program> <schedule from the S line> | ocaml/c09/driver"})
     if model_mm and not spec_mm:
+        # SEARCH: the tie broke but no explored execution violated the property.  Look harder around the
+        # diverging kinds: one more preemption, more executions per program, more and different random programs;
+        # only the property oracle (evaluated on the implementation's own observations) counts here.
+        kinds = sorted({m[0].split(":")[1] for m in model_mm if m[0].split(":")[0] in ("exh", "rnd")}) or KINDS
+        sjobs = []
+        for k in kinds:
+            for i in range(nsh):
+                sjobs.append(("search-exh:%s:%d" % (k, i), [exe, "exh", k, str(bound + 1), str(i), str(nsh), str(ctx.seed), str(4 * maxexecs)]))
+                sjobs.append(("search-rnd:%s:%d" % (k, i), [exe, "rnd", k, str(6 * nr), str(i), str(nsh), str(ctx.seed + 1)]))
+        sr = vlib.run_pipelines(sjobs, driver)
+        ctx.cov["search_phase"] = {"kinds": kinds, "executions": sr["cases"], "spec_mismatches": sr["mismatches_spec"]}
+        found = [m for m in sr["mismatch_lines"] if "kind=spec" in m[2]]
+        for lbl, cmd, line in found[:2]:
+            case_no = int(line.split("case=")[1].split()[0])
+            hist = vlib.extract_case(cmd.split(), driver, case_no)
+            msg = line.split("] ", 1)[1] if "] " in line else line
+            ctx.violation("index-set property violated by the implementation under a concrete schedule (found by the search phase after the trace correspondence broke): " + msg[:300],
+                          {"execution": hist[:400], "harness_cmd": cmd, "first_divergence": model_mm[0][2][:600],
+                           "how_to_rerun": "c09 one <kind> <cap> <program> <schedule from the S line> | ocaml/c09/driver"})
+        spec_mm = found
+    if model_mm and not spec_mm:
         lbl, cmd, line = model_mm[0]
         case_no = int(line.split("case=")[1].split()[0])
         hist = vlib.extract_case(cmd.split(), driver, case_no) if not lbl.startswith("wrap:") else []
